@@ -41,7 +41,7 @@ CASE_TIMEOUT = 300
 LENS = [1, 2, 7, 50, 101]
 HORIZONS = [0.05, 1.0, 2.5]
 FPS = [1, 10, 50, 1000]
-KINDS = ["rb", "pm", "mframe", "box", "ball", "contact", "contact_m", "contact0", "fd", "fd_wedge", "spring", "force", "bforce", "moment", "bmoment", "pmlist", "contactlist",
+KINDS = ["rb", "pm", "mframe", "rframe", "box", "ball", "contact", "contact_m", "contact0", "fd", "fd_wedge", "spring", "force", "bforce", "moment", "bmoment", "pmlist", "contactlist",
          "rod_cl", "rod_nv_wedge", "rod_nv_quad", "rod_nv_rect", "rod_volume"]
 T0 = 0.3
 VTK_VERTEX, VTK_LINE, VTK_TRIANGLE = 1, 3, 5
@@ -108,7 +108,7 @@ def _mf_A_t(t):
 
 P = {
     "box_dim": np.array([0.3, 0.2, 0.5]), "box_off": np.array([0.1, -0.05, 0.2]), "box_ABM": _Rz(0.4) @ _Rx(-0.3),
-    "ball_R": 0.25, "plane_r": np.array([0.0, 0.1, -0.2]), "plane_A": _Rx(0.2) @ _Ry(-0.1),
+    "rframe_r": np.array([0.4, -0.6, 0.9]), "ball_R": 0.25, "plane_r": np.array([0.0, 0.1, -0.2]), "plane_A": _Rx(0.2) @ _Ry(-0.1),
     "c0_r": 0.05, "fd_B2": np.array([0.1, 0.2, -0.1]), "fd_B1": np.array([0.0, 0.0, 0.0]), "tpi_B1": np.array([0.05, -0.1, 0.15]), "tpi_B2": np.array([-0.1, 0.1, 0.05]),
     "force_B": np.array([0.1, 0.0, 0.2]), "bforce_B": np.array([-0.1, 0.05, 0.0]), "wedge_radius": 0.03,
 }
@@ -149,6 +149,9 @@ def _scene(seed):
         o["pm"] = PointMass(1.0, q0=np.array([1.0, 0.5, 0.8]), u0=np.zeros(3), name="pm")
         o["pm2"] = PointMass(1.0, q0=np.array([-1.0, 0.4, 1.2]), u0=np.zeros(3), name="pm2")
         o["mframe"] = Frame(r_OP=_mf_r, r_OP_t=_mf_v, A_IB=_mf_A, A_IB_t=_mf_A_t, name="mframe")
+        # frame turning about its own FIXED origin: the exported point is bit-identical in every frame, the vector data are not
+        # (a writer that re-uses the previous frame's grid when the points did not move writes stale data; seeded C29-h)
+        o["rframe"] = Frame(r_OP=P["rframe_r"].copy(), A_IB=_mf_A, A_IB_t=_mf_A_t, name="rframe")
         o["box"] = Box(RigidBody)(dimensions=P["box_dim"].copy(), mass=2.0, B_Theta_C=th, q0=q7(1, [0.5, 1.0, 1.5]), u0=np.zeros(6), B_r_CP=P["box_off"].copy(),
                                   A_BM=P["box_ABM"].copy(), name="box")
         o["ball"] = Sphere(RigidBody)(radius=P["ball_R"], subdivisions=1, mass=1.5, B_Theta_C=th, q0=q7(2, [-0.5, -1.0, 1.1]), u0=np.zeros(6), name="ball")
@@ -166,7 +169,7 @@ def _scene(seed):
         o["bforce"] = B_Force(_bforce_t, o["box"], B_r_CP=P["bforce_B"].copy(), name="bforce")
         o["moment"] = Moment(_moment_t, o["rb"], name="moment")
         o["bmoment"] = B_Moment(_moment_t, o["box"], name="bmoment")
-        order = ["rb", "pm", "pm2", "mframe", "box", "ball", "plane", "contact", "contact0", "contact2", "contact_m", "fd", "spring", "force", "bforce", "moment", "bmoment"]
+        order = ["rb", "pm", "pm2", "mframe", "rframe", "box", "ball", "plane", "contact", "contact0", "contact2", "contact_m", "fd", "spring", "force", "bforce", "moment", "bmoment"]
         system.add(*[o[k] for k in order])
         system.assemble(options=SolverOptions(compute_consistent_initial_conditions=False))
     return system, o
@@ -314,6 +317,11 @@ def _expect(kind, o, row):
         E["points"] = [_mf_r(t)]
         E["cells"] = [(VTK_VERTEX, [0])]
         E["cell_data"] = {"v": [_mf_v(t)], "Omega": [np.array([0.0, 0.0, 0.7])], "ex": [A[:, 0]], "ey": [A[:, 1]], "ez": [A[:, 2]]}
+    elif kind == "rframe":
+        A = _mf_A(t)
+        E["points"] = [P["rframe_r"]]
+        E["cells"] = [(VTK_VERTEX, [0])]
+        E["cell_data"] = {"v": [np.zeros(3)], "Omega": [np.array([0.0, 0.0, 0.7])], "ex": [A[:, 0]], "ey": [A[:, 1]], "ez": [A[:, 2]]}
     elif kind == "box":
         r, A, v, om = _rbs(o, "box", q, u)
         d = P["box_dim"]
